@@ -117,6 +117,23 @@ def cases(tier, seed):
         yield {"steps": gen_steps(r, r.choice([4, 8, 12, 20, 30]) if tier == "quick" else r.choice([8, 20, 40]))}
 
 
+def post(run, seen):
+    """evaluate the hypothesis `legalSeq` of C12_history (names fresh, no graft onto an own descendant) on every history
+    that was tested, with the Lean definition itself"""
+    import subprocess, json
+    lines = "".join(json.dumps(forest.model_steps(c["steps"])) + "\n" for c in seen)
+    p = subprocess.run(["lake", "env", "lean", "--run", "scripts/LegalEval.lean"], cwd=common.LEAN, input=lines,
+                       capture_output=True, text=True, timeout=600)
+    out = p.stdout.split()
+    if len(out) != len(seen):
+        run.notes.append(f"hypothesis evaluation produced {len(out)} answers for {len(seen)} histories: {p.stderr[-300:]}")
+        return
+    run.count("history_meets_hypothesis_of_C12_history", out.count("true"))
+    run.count("history_outside_hypothesis_of_C12_history", out.count("false"))
+    run.notes.append(f"{out.count('true')} of {len(seen)} tested histories satisfy legalSeq, the hypothesis of C12_history "
+                     f"(evaluated by the Lean definition); the others repeat a cut and so create two Roots of one name")
+
+
 def run_both(drv, case):
     io = forest.run_impl(case["steps"])
     mo = forest.run_model(drv, case["steps"]) if drv is not None else None
